@@ -4,6 +4,7 @@ import ast
 from typing import List, Optional
 
 from harness.extract.util import class_def, find_method, parse
+from harness.lib.core import SRC
 
 GEN_NAME = "Session"
 
@@ -44,11 +45,122 @@ def _and_terms(e: ast.AST) -> List[str]:
 
 
 def _timeout_cmp(fn: ast.FunctionDef, lhs: str) -> str:
+    """the operator of `<lhs> <op> timestep`; "?" when the source no longer has that comparison (the obligation
+    C16_gen_comparisons then fails, the rig still runs and searches for a failing input)"""
     for n in ast.walk(fn):
         if isinstance(n, ast.If) and isinstance(n.test, ast.Compare) and ast.unparse(n.test.left) == lhs:
             if len(n.test.ops) == 1 and ast.unparse(n.test.comparators[0]) == "timestep":
-                return _CMP[type(n.test.ops[0])]
-    raise ValueError(f"pre_timestep: no comparison `{lhs} <op> timestep`")
+                return _CMP.get(type(n.test.ops[0]), "?")
+    return "?"
+
+
+def _timeout_tests(fn: ast.FunctionDef) -> List[tuple]:
+    """Every time-out decision of `pre_timestep`: each `if` (in source order) whose test mentions a time-out parameter or
+    `last_active_step`, as (test, what its body does)."""
+    out = []
+    for n in ast.walk(fn):
+        if isinstance(n, ast.If):
+            t = ast.unparse(n.test)
+            if "timeout" in t or "last_active_step" in t:
+                out.append((n.lineno, t, "; ".join(ast.unparse(x) for x in n.body)))
+    return [(t, b) for _, t, b in sorted(out)]
+
+
+_ACCOUNT_FIELDS = ("disabled", "is_admin", "password", "username")
+_ACCOUNT_EDITORS = ("add_user", "disable_user", "enable_user", "change_user_password")
+_DICT_MUTATORS = ("pop", "clear", "update", "setdefault", "popitem", "__setitem__", "__delitem__")
+
+
+def _qual(stack: List[str]) -> str:
+    return ".".join(stack) if stack else "<module>"
+
+
+class _Walk(ast.NodeVisitor):
+    """visit with the enclosing class / function names"""
+
+    def __init__(self, on_node):
+        self.stack: List[str] = []
+        self.on_node = on_node
+
+    def generic_visit(self, node):
+        named = isinstance(node, (ast.ClassDef, ast.FunctionDef, ast.AsyncFunctionDef))
+        if named:
+            self.stack.append(node.name)
+        self.on_node(node, list(self.stack))
+        super().generic_visit(node)
+        if named:
+            self.stack.pop()
+
+
+def _targets(node: ast.AST) -> List[ast.AST]:
+    if isinstance(node, ast.Assign):
+        out = []
+        for t in node.targets:
+            out += list(t.elts) if isinstance(t, (ast.Tuple, ast.List)) else [t]
+        return out
+    if isinstance(node, (ast.AugAssign, ast.AnnAssign)):
+        return [node.target] if not (isinstance(node, ast.AnnAssign) and node.value is None) else []
+    if isinstance(node, ast.Delete):
+        return list(node.targets)
+    return []
+
+
+def _um_writes(um: ast.ClassDef) -> List[tuple]:
+    """every statement inside UserManager that writes to something other than a local name: assignments / deletions whose
+    target is an attribute or a subscript, and calls of dict mutators on `self.users`"""
+    out = []
+    for fn in um.body:
+        if not isinstance(fn, ast.FunctionDef):
+            continue
+        found = []
+        for n in ast.walk(fn):
+            for t in _targets(n):
+                if isinstance(t, (ast.Attribute, ast.Subscript)):
+                    found.append((n.lineno, ast.unparse(n)))
+            if isinstance(n, ast.Call) and isinstance(n.func, ast.Attribute) and n.func.attr in _DICT_MUTATORS \
+                    and "users" in ast.unparse(n.func.value):
+                found.append((n.lineno, ast.unparse(n)))
+        for _, st in sorted(set(found)):
+            out.append((fn.name, st))
+    return out
+
+
+def _package_inventory():
+    """Over every module of the package: (a) writes to an account field / to a `users` mapping outside class UserManager,
+    (b) calls of the account-editing methods outside class UserManager, (c) writes to `last_active_step`,
+    (d) the user-manager / user-session-manager request names that agent actions build."""
+    field_writes, editor_calls, clock_writes, action_reqs = [], [], [], []
+    for f in sorted(SRC.rglob("*.py")):
+        rel = str(f.relative_to(SRC))
+        try:
+            tree = ast.parse(f.read_text())
+        except SyntaxError as e:  # pragma: no cover
+            raise ValueError(f"{rel}: {e}")
+
+        def on(node, stack, rel=rel):
+            in_um = "UserManager" in stack
+            for t in _targets(node):
+                if isinstance(t, ast.Attribute) and t.attr == "last_active_step":
+                    clock_writes.append(f"{rel}:{_qual(stack)}: {ast.unparse(node)}")
+                if in_um:
+                    continue
+                if isinstance(t, ast.Attribute) and t.attr in _ACCOUNT_FIELDS and not isinstance(t.value, ast.Name) or \
+                        isinstance(t, ast.Attribute) and t.attr in ("disabled", "is_admin") or \
+                        isinstance(t, ast.Subscript) and ast.unparse(t.value).endswith(".users") or \
+                        isinstance(t, ast.Attribute) and t.attr == "users" and not (stack and stack[-1] in ("__init__",)):
+                    field_writes.append(f"{rel}:{_qual(stack)}: {ast.unparse(node)}")
+            if isinstance(node, ast.Call) and isinstance(node.func, ast.Attribute):
+                if node.func.attr in _ACCOUNT_EDITORS and not in_um:
+                    editor_calls.append(f"{rel}:{_qual(stack)}: {ast.unparse(node)}")
+                if node.func.attr in _DICT_MUTATORS and ast.unparse(node.func.value).endswith(".users") and not in_um:
+                    field_writes.append(f"{rel}:{_qual(stack)}: {ast.unparse(node)}")
+            if rel.startswith("game/agent/actions/") and isinstance(node, ast.List):
+                el = [e.value if isinstance(e, ast.Constant) else None for e in node.elts]
+                for svc in ("user-manager", "user-session-manager"):
+                    if svc in el and el.index(svc) + 1 < len(el) and isinstance(el[el.index(svc) + 1], str):
+                        action_reqs.append(f"{svc}:{el[el.index(svc) + 1]}")
+        _Walk(on).visit(tree)
+    return field_writes, editor_calls, clock_writes, sorted(set(action_reqs))
 
 
 def _lean_list(xs: List[str]) -> str:
@@ -57,6 +169,14 @@ def _lean_list(xs: List[str]) -> str:
 
 def _b(x: bool) -> str:
     return "true" if x else "false"
+
+
+def _q(x: str) -> str:
+    return '"' + x.replace("\\", "\\\\").replace('"', '\\"') + '"'
+
+
+def _lean_pairs(xs) -> str:
+    return "[" + ", ".join(f"({_q(a)}, {_q(b)})" for a, b in xs) + "]"
 
 
 def emit() -> str:
@@ -95,6 +215,12 @@ def emit() -> str:
     limcmp = _CMP[type(r.value.ops[0])]
     val = _body(find_method(usm, "validate_remote_session_uuid"))[0]
     validate_is_membership = isinstance(val, ast.Return) and ast.unparse(val.value) == "remote_session_id in self.remote_sessions"
+
+    timeout_tests = _timeout_tests(pre)
+    tos0 = find_method(usm, "_timeout_session")
+    kind_test = [ast.unparse(n.test) for n in ast.walk(tos0) if isinstance(n, ast.If)]
+    # the helper methods pre_timestep calls on self (a time-out decision hidden in a helper changes this list)
+    pre_calls = sorted({ast.unparse(n.func) for n in ast.walk(pre) if isinstance(n, ast.Call) and ast.unparse(n.func).startswith("self.")})
 
     # ---- _timeout_session tolerates a missing terminal connection
     tos = find_method(usm, "_timeout_session")
@@ -190,6 +316,28 @@ def emit() -> str:
             body = [ast.unparse(x) for x in n.body]
             lo_disc_first = body == ["self.parent.terminal._disconnect(remote_session_id)",
                                      "session = self.remote_sessions.pop(remote_session_id, None)"]
+    um_methods = [f.name for f in um.body if isinstance(f, ast.FunctionDef)]
+    um_writes = _um_writes(um)
+    add = find_method(um, "add_user")
+    add_refuses_existing = any(isinstance(n, ast.If) and ast.unparse(n.test) == "username in self.users"
+                               and isinstance(n.body[-1], ast.Return) and ast.unparse(n.body[-1].value) == "False"
+                               for n in _body(add))
+    add_order = [i for i, n in enumerate(_body(add))
+                 if (isinstance(n, ast.If) and ast.unparse(n.test) == "username in self.users") or ast.unparse(n) == "self.users[username] = user"]
+    add_refuses_before_write = add_refuses_existing and len(add_order) == 2 and add_order[0] < add_order[1]
+    field_writes, editor_calls, clock_writes, action_reqs = _package_inventory()
+    install_body = [ast.unparse(x) for x in _body(find_method(um, "install"))]
+    g0 = _body(add)[0]
+    add_guard = ast.unparse(g0.test) if isinstance(g0, ast.If) and ast.unparse(g0.body[-1]) == "return False" else "?"
+    create_clocks = []
+    for cname in ("UserSession", "RemoteUserSession"):
+        cr = find_method(class_def(base, cname), "create")
+        rets = [ast.unparse(n.value) for n in ast.walk(cr) if isinstance(n, ast.Return)]
+        create_clocks += [f"{cname}.create: {r}" for r in rets]
+    remote_is_sub = [ast.unparse(b) for b in class_def(base, "RemoteUserSession").bases] == ["UserSession"]
+    user_cls = class_def(base, "User")
+    user_fields = [(ast.unparse(st.target), ast.unparse(st.value) if st.value is not None else "-")
+                   for st in user_cls.body if isinstance(st, ast.AnnAssign)]
     um_reqs = []
     for n in ast.walk(find_method(um, "_init_request_manager")):
         if isinstance(n, ast.Call) and ast.unparse(n.func) == "rm.add_request":
@@ -199,6 +347,15 @@ def emit() -> str:
                     and ast.unparse(en[0].body[0]) == "self.users[username].disabled = False"
                     and ast.unparse(en[0].body[-1]) == "return True" and ast.unparse(en[-1]) == "return False")
     node = class_def(base, "Node")
+    # the node-level requests named like a login: handlers as written
+    node_login_reqs = []
+    for n in ast.walk(find_method(node, "_init_request_manager")):
+        if isinstance(n, ast.Call) and ast.unparse(n.func) == "rm.add_request" and isinstance(n.args[0], ast.Constant) \
+                and ("log" in str(n.args[0].value) or "user" in str(n.args[0].value) or "session" in str(n.args[0].value)):
+            rt = n.args[1]
+            kw = {k.arg: k.value for k in rt.keywords} if isinstance(rt, ast.Call) else {}
+            f = kw.get("func")
+            node_login_reqs.append((n.args[0].value, ast.unparse(f.body) if isinstance(f, ast.Lambda) else ast.unparse(f) if f else "?"))
 
     def _zero_branch(meth: str, test: str) -> List[str]:
         st = _body(find_method(node, meth))[0]
@@ -300,6 +457,14 @@ def svcStates : List (String × Nat) := {states_lean}
 def localTimeoutCmp : String := "{lcmp}"
 def remoteTimeoutCmp : String := "{rcmp}"
 def preTimestepSetsCurrent : Bool := {_b(sets_now)}
+/-- every time-out decision of `pre_timestep`, in source order: (test, body) -/
+def preTimestepTimeoutTests : List (String × String) := {_lean_pairs(timeout_tests)}
+/-- the `if` tests of `_timeout_session` (which kind of session is being ended) -/
+def timeoutSessionTests : List String := {_lean_list(kind_test)}
+/-- methods of `self` that `pre_timestep` calls -/
+def preTimestepSelfCalls : List String := {_lean_list(pre_calls)}
+/-- every assignment to a `last_active_step` attribute anywhere in the package (`file:scope: statement`) -/
+def lastActiveStepWrites : List String := {_lean_list(clock_writes)}
 /-- `len(remote_sessions) <cmp> max_remote_sessions` in `remote_session_limit_reached` -/
 def limitCmp : String := "{limcmp}"
 def validateIsMembership : Bool := {_b(validate_is_membership)}
@@ -323,6 +488,27 @@ def usmLoginAnswersBool : Bool := {_b(usm_login_bool)}
 def usmLogoutHandler : Bool := {_b(usm_logout_handler)}
 def logoutPopTolerant : Bool := {_b(logout_pop_tolerant)}
 def logoutDisconnectsThenPops : Bool := {_b(lo_disc_first)}
+/-- every method of UserManager, in source order -/
+def userManagerMethods : List String := {_lean_list(um_methods)}
+/-- every statement inside UserManager that writes to an attribute / subscript or mutates `users`: (method, statement) -/
+def userManagerWrites : List (String × String) := {_lean_pairs(um_writes)}
+def addUserRefusesExistingNameBeforeWriting : Bool := {_b(add_refuses_before_write)}
+/-- requests registered on the Node itself whose name mentions log / user / session, with their handler bodies -/
+def nodeLoginRequests : List (String × String) := {_lean_pairs(node_login_reqs)}
+def installBody : List String := {_lean_list(install_body)}
+/-- the test of the guard `if …: return False` that opens add_user -/
+def addUserGuard : String := {_q(add_guard)}
+/-- what the two `create` class methods return (where a session's clock starts) -/
+def sessionCreateClocks : List String := {_lean_list(create_clocks)}
+def remoteSessionIsSubclassOfUserSession : Bool := {_b(remote_is_sub)}
+/-- the fields of class User with their defaults -/
+def userFields : List (String × String) := {_lean_pairs(user_fields)}
+/-- writes to an account field or to a `users` mapping anywhere in the package outside class UserManager -/
+def accountWritesElsewhere : List String := {_lean_list(field_writes)}
+/-- calls of add_user / disable_user / enable_user / change_user_password anywhere in the package outside class UserManager -/
+def accountEditorCallsElsewhere : List String := {_lean_list(editor_calls)}
+/-- the user-manager / user-session-manager requests that agent actions build -/
+def actionAccountRequests : List String := {_lean_list(action_reqs)}
 /-- requests registered by UserManager (enable_user is not among them: Python API only) -/
 def userManagerRequests : List String := {_lean_list(um_reqs)}
 def enableUserShape : Bool := {_b(enable_shape)}
